@@ -172,6 +172,34 @@ def call_spec_fn(self, name, e, st):
         else:
             z = z3.Exists(bound, z3.And(*inside, bz) if inside else bz)
         return bool_val(z)
+    if name == "each":      # each(lst, lambda x: body): body holds for every item of the heap list / deque lst
+        # stated over ABSOLUTE positions of the element array (an item of a deque sits at arr[off + j]; with the offset inside the
+        # index neither solver instantiates), with the array read as the pattern
+        lst = self.ev1(e.args[0], st)[0]
+        lam = e.args[1]
+        if not (isinstance(lst, Val) and isinstance(lst.t, List) and isinstance(lam, ast.Lambda) and len(lam.args.args) == 1):
+            raise ContractError("each(list, lambda x: ...)")
+        arr, off, n = z3.simplify(self.list_arr(st, lst)), self.list_off(st, lst), self.list_len(st, lst)
+        p = fresh("p", z3.IntSort())
+        x = Val(lst.t.elt, z3.Select(arr, p))
+        s = State(dict(st.env), st.heap, st.pc, st.next_ref, st.ghost, st.labels)
+        nm = lam.args.args[0].arg
+        s.env[nm] = x
+        s.env["$q_" + nm] = x
+        npc = len(st.pc)
+        saved_b = getattr(self, "_cur_bound_ids", None)
+        self._cur_bound_ids = set(saved_b or ()) | {p.get_id()}
+        try:
+            body, s2 = self.ev1(lam.body, s)
+        finally:
+            self._cur_bound_ids = saved_b
+        bz = self.truth(body, s2)
+        extra = list(s2.pc[npc:])
+        del st.pc[npc:]
+        inside = []
+        for z in extra:
+            (inside if _mentions(z, {p.get_id()}) else []).append(z) if _mentions(z, {p.get_id()}) else st.assume(z)
+        return bool_val(z3.ForAll([p], z3.Implies(z3.And(off <= p, p < off + n, *inside), bz), patterns=[z3.Select(arr, p)]))
     if name == "implies":
         a = self.truth(self.ev1(e.args[0], st)[0], st)
         b = self.truth(self.ev1(e.args[1], st)[0], st)
@@ -296,7 +324,7 @@ def _mentions(z, idset):
     return False
 
 
-SPEC_NAMES = {"allocated", "cur", "madd", "mset", "remap", "keys_are", "wf", "last_result", "last_arg", "called_after", "old", "at", "result", "forall", "forall_t", "exists", "implies", "iff", "ite", "is_none", "val", "fresh", "same",
+SPEC_NAMES = {"allocated", "cur", "each", "madd", "mset", "remap", "keys_are", "wf", "last_result", "last_arg", "called_after", "old", "at", "result", "forall", "forall_t", "exists", "implies", "iff", "ite", "is_none", "val", "fresh", "same",
               "ssum"}
 
 
@@ -1249,9 +1277,21 @@ def list_extend(self, st, lst, view):
     zero_off = z3.is_int_value(off) and off.as_long() == 0
     pos = (lambda x: x) if zero_off else (lambda x: off + x)
     # absolute positions, so that Select(arr, i) is a usable trigger
-    st.assume(z3.ForAll([i], z3.Implies(i < n0, z3.Select(arr, pos(i)) == z3.Select(arr0, pos(i)))))
-    st.assume(z3.ForAll([i], z3.Implies(z3.And(n0 <= i, i < n0 + m), z3.Select(arr, pos(i))
-                                        == self.coerce(self.guess_tuple(view.at(i - n0), st), lst.t.elt, st).z)))
+    if zero_off:
+        st.assume(z3.ForAll([i], z3.Implies(i < n0, z3.Select(arr, i) == z3.Select(arr0, i))))
+        st.assume(z3.ForAll([i], z3.Implies(z3.And(n0 <= i, i < n0 + m), z3.Select(arr, i)
+                                            == self.coerce(self.guess_tuple(view.at(i - n0), st), lst.t.elt, st).z)))
+    else:
+        # a deque: items sit at arr[off + j]; the axioms range over the absolute position q = off + j (an index with arithmetic in
+        # it is no usable pattern), the relative form is kept as well for goals stated relatively
+        q = fresh("q", z3.IntSort())
+        st.assume(z3.ForAll([q], z3.Implies(q < off + n0, z3.Select(arr, q) == z3.Select(arr0, q)), patterns=[z3.Select(arr, q)]))
+        st.assume(z3.ForAll([q], z3.Implies(z3.And(off + n0 <= q, q < off + n0 + m), z3.Select(arr, q)
+                                            == self.coerce(self.guess_tuple(view.at(q - off - n0), st), lst.t.elt, st).z),
+                            patterns=[z3.Select(arr, q)]))
+        st.assume(z3.ForAll([i], z3.Implies(i < n0, z3.Select(arr, pos(i)) == z3.Select(arr0, pos(i)))))
+        st.assume(z3.ForAll([i], z3.Implies(z3.And(n0 <= i, i < n0 + m), z3.Select(arr, pos(i))
+                                            == self.coerce(self.guess_tuple(view.at(i - n0), st), lst.t.elt, st).z)))
     mp = getattr(view, "member_pred", None)
     if mp is not None:
         # the source enumerates a set / the keys of a dict: every appended item is a member (stated on the destination array,
